@@ -202,6 +202,10 @@ func runSession(c Case, tr *Tracer) {
 		tr.emit(Ev{"ev": "Send", "type": typeNameOf(p), "v": be(uint64(seq), 4), "getseq": be(uint64(p.GetSequenceID()), 4), "getcmd": pduGetCmd(p), "bytes": B(b), "built": "ctor", "site": typeNameOf(p)})
 		return
 	}
+	if sc := caseList(c, "script"); sc != nil {
+		runSessionScript(pkg, sc, rr, tr)
+		return
+	}
 	reqs := caseList(c, "reqs")
 	var sent [][]byte
 	var types []string
@@ -331,4 +335,75 @@ func runDispatch(c Case, kind string, tr *Tracer) {
 		return
 	}
 	tr.emit(Ev{"ev": "Disp", "pkg": pkg, "cmd": B(cmd), "res": dt, "site": pkg + ".dispatcher"})
+}
+
+// runSessionScript steps a behaviour generated by TLC (Gen_Session) through the real code:
+// S = build a request, SetSequenceID, encode; R = the server dispatches request idx and answers it;
+// C = the client dispatches the response to request idx.
+func runSessionScript(pkg string, script []map[string]interface{}, rr *rand.Rand, tr *Tracer) {
+	var sent, replies [][]byte
+	var types []string
+	for _, st := range script {
+		switch caseStr(st, "a") {
+		case "S":
+			tn := caseStr(st, "type")
+			p := buildRequest(rr, tn, caseInt(st, "flavour"))
+			if pkg == "sgip12" {
+				root := reflect.ValueOf(p).Elem()
+				resolve(root, "Header.Sequence[0]").SetUint(uint64(1000 + len(sent)))
+				resolve(root, "Header.Sequence[1]").SetUint(uint64(7 * (len(sent) + 1)))
+			}
+			v := uint32(beUint(caseBytes(st, "seq")))
+			p.SetSequenceID(v)
+			b, err := p.IEncode()
+			if err != nil {
+				b = nil
+			} else {
+				tr.emit(Ev{"ev": "Send", "type": tn, "v": be(uint64(v), 4), "getseq": be(uint64(p.GetSequenceID()), 4), "getcmd": pduGetCmd(p), "bytes": B(b), "built": "user", "site": tn})
+			}
+			sent = append(sent, b)
+			replies = append(replies, nil)
+			types = append(types, tn)
+		case "R":
+			i := caseInt(st, "idx") - 1
+			if i < 0 || i >= len(sent) || sent[i] == nil {
+				continue
+			}
+			b := sent[i]
+			dt, p := dispatchName(pkg, b)
+			e := Ev{"ev": "SRecv", "bytes": B(b), "dtype": dt, "getcmd": []int{}, "site": types[i]}
+			if p != nil {
+				e["getcmd"] = pduGetCmd(p)
+			}
+			tr.emit(e)
+			if p == nil {
+				continue
+			}
+			var resp sms.PDU
+			guard(func() { resp = p.GenEmptyResponse() })
+			re := Ev{"ev": "Reply", "type": types[i], "reqbytes": B(b), "rnil": true, "rtype": "", "rgetcmd": []int{}, "rbytes": []int{}, "site": types[i]}
+			if resp != nil && !reflect.ValueOf(resp).IsNil() {
+				if rb, err := resp.IEncode(); err == nil {
+					re["rnil"], re["rtype"], re["rgetcmd"], re["rbytes"] = false, typeNameOf(resp), pduGetCmd(resp), B(rb)
+					replies[i] = rb
+				}
+			}
+			tr.emit(re)
+		case "C":
+			i := caseInt(st, "idx") - 1
+			if i < 0 || i >= len(replies) || replies[i] == nil {
+				continue
+			}
+			rb := replies[i]
+			dt, p := dispatchName(pkg, rb)
+			e := Ev{"ev": "CRecv", "bytes": B(rb), "dtype": dt, "getcmd": []int{}, "gennil": true, "site": "response"}
+			if p != nil {
+				e["getcmd"] = pduGetCmd(p)
+				g := p.GenEmptyResponse()
+				e["gennil"] = g == nil || reflect.ValueOf(g).IsNil()
+				e["site"] = dt
+			}
+			tr.emit(e)
+		}
+	}
 }
